@@ -62,7 +62,7 @@ def binding_sites(func, module_globals):
         elif isinstance(n, (ast.Import, ast.ImportFrom)):
             for al in n.names:
                 declared.add((al.asname or al.name).split('.')[0])
-    skip = params | declared | module_globals | set(dir(builtins))
+    skip = params | declared | module_globals      # (a builtin name that is stored to is a local like any other)
     seen = {}
     order = []
     kind_of = {}
@@ -94,11 +94,92 @@ def binding_sites(func, module_globals):
         elif isinstance(st, ast.NamedExpr) and isinstance(st.target, ast.Name):
             kind, names = 'walrus', [st.target.id]
         for nm in names:
+            if kind == 'comp':
+                # a comprehension's loop variables live in that comprehension: one entry per comprehension, whatever
+                # else has the same name
+                order.append([nm, kind])
+                continue
             if nm in skip or nm in seen:
                 continue
             seen[nm] = True
             order.append([nm, kind])
     return order
+
+
+_COMPS = (ast.ListComp, ast.SetComp, ast.GeneratorExp, ast.DictComp)
+
+
+def comp_nodes(func):
+    """the comprehensions of func in the order in which binding_sites meets their `for` clauses"""
+    out = []
+    for n in _ordered(func):
+        if isinstance(n, ast.comprehension):
+            out.append(n)
+    return out
+
+
+def rename_scoped(f, gmap, cmaps):
+    """rename function-scope names by gmap and, inside each `for` clause's comprehension, that clause's variables by
+    cmaps[id(clause)]; a name bound by an enclosing comprehension is never touched by gmap"""
+    def rec(node, env):
+        if isinstance(node, _COMPS):
+            inner = dict(env)
+            for g in node.generators:
+                cm = cmaps.get(id(g), {})
+                for t in ast.walk(g.target):
+                    if isinstance(t, ast.Name):
+                        inner[t.id] = cm.get(t.id, t.id)
+            rec(node.generators[0].iter, env)          # (evaluated in the enclosing scope)
+            for gi, g in enumerate(node.generators):
+                rec(g.target, inner)
+                if gi:
+                    rec(g.iter, inner)
+                for c in g.ifs:
+                    rec(c, inner)
+            for fld in ('elt', 'key', 'value'):
+                if hasattr(node, fld):
+                    rec(getattr(node, fld), inner)
+            return
+        if isinstance(node, ast.Name):
+            if node.id in env:
+                node.id = env[node.id]
+            return
+        if isinstance(node, ast.ExceptHandler) and node.name in env:
+            node.name = env[node.name]
+        for ch in ast.iter_child_nodes(node):
+            rec(ch, env)
+    rec(f, dict(gmap))
+
+
+def scope_names(f):
+    """names read or written in f outside the comprehensions that bind them"""
+    out = set()
+
+    def rec(node, bound):
+        if isinstance(node, _COMPS):
+            inner = set(bound)
+            for g in node.generators:
+                inner |= {t.id for t in ast.walk(g.target) if isinstance(t, ast.Name)}
+            rec(node.generators[0].iter, bound)
+            for gi, g in enumerate(node.generators):
+                if gi:
+                    rec(g.iter, inner)
+                for c in g.ifs:
+                    rec(c, inner)
+            for fld in ('elt', 'key', 'value'):
+                if hasattr(node, fld):
+                    rec(getattr(node, fld), inner)
+            return
+        if isinstance(node, ast.Name):
+            if node.id not in bound:
+                out.add(node.id)
+            return
+        if isinstance(node, ast.arguments):
+            out.update(a.arg for a in node.posonlyargs + node.args + node.kwonlyargs)
+        for ch in ast.iter_child_nodes(node):
+            rec(ch, bound)
+    rec(f, set())
+    return out
 
 
 def module_globals_of(tree):
@@ -157,7 +238,205 @@ class _Subst(ast.NodeTransformer):
         return node
 
 
-def inline_new_temps(f, ref_names):
+_PURE_METHODS = {'split', 'rsplit', 'strip', 'lstrip', 'rstrip', 'lower', 'upper', 'startswith', 'endswith', 'get', 'decode', 'encode',
+                 'join', 'sum', 'any', 'all', 'tolist', 'format', 'replace', 'keys', 'values', 'items', 'count', 'index', 'find'}
+_PURE_FUNCS = {'len', 'str', 'int', 'float', 'bool', 'list', 'tuple', 'set', 'dict', 'sorted', 'min', 'max', 'sum', 'any', 'all',
+               'isinstance', 'getattr', 'hasattr', 'repr', 'abs', 'range', 'enumerate', 'zip', 'type', 'bytes', 'frozenset'}
+
+
+def _pure(e):
+    """an expression whose value depends only on the names it reads and that can be evaluated twice for once: names,
+    attributes, subscripts, constants, arithmetic, comparisons, and calls of well-known read-only builtins / methods"""
+    for x in ast.walk(e):
+        if isinstance(x, (ast.Name, ast.Attribute, ast.Subscript, ast.Slice, ast.Constant, ast.BinOp, ast.UnaryOp, ast.BoolOp, ast.Compare,
+                          ast.IfExp, ast.Tuple, ast.List, ast.operator, ast.unaryop, ast.boolop, ast.cmpop, ast.expr_context, ast.keyword)):
+            continue
+        if isinstance(x, ast.Call):
+            if isinstance(x.func, ast.Name) and x.func.id in _PURE_FUNCS:
+                continue
+            if isinstance(x.func, ast.Attribute) and x.func.attr in _PURE_METHODS:
+                continue
+        return False
+    return True
+
+
+def inline_shared_temps(f, ref_names):
+    """Undo "extract common subexpression": a local the reference does not have, bound once by `name = <pure
+    expression>` and read several times in what follows its binding, none of the names it reads being stored to between
+    the binding and the last read - every read is replaced by the expression.  Returns the number of temporaries."""
+    if os.environ.get('VERIF_NO_INLINE'):
+        return 0
+    import copy
+    done = 0
+    pos = lambda n: (n.lineno, n.col_offset)
+    again = True
+    while again:
+        again = False
+        stores, loads = {}, {}
+        for n in ast.walk(f):
+            if isinstance(n, ast.Name):
+                (stores if isinstance(n.ctx, (ast.Store, ast.Del)) else loads).setdefault(n.id, []).append(n)
+        params = {a.arg for n in ast.walk(f) if isinstance(n, ast.arguments) for a in n.posonlyargs + n.args + n.kwonlyargs}
+        for holder in ast.walk(f):
+            for fld in ('body', 'orelse', 'finalbody'):
+                blk = getattr(holder, fld, None)
+                if not isinstance(blk, list):
+                    continue
+                for i, st in enumerate(blk[:-1]):
+                    if not (isinstance(st, ast.Assign) and len(st.targets) == 1 and isinstance(st.targets[0], ast.Name)):
+                        continue
+                    nm = st.targets[0].id
+                    if nm in ref_names or nm in params or len(stores.get(nm, [])) != 1 or len(loads.get(nm, [])) < 2 or not _pure(st.value):
+                        continue
+                    after = {id(y) for later in blk[i + 1:] for y in ast.walk(later)}
+                    uses = loads[nm]
+                    if not all(id(u) in after for u in uses):
+                        continue
+                    # (no nested function reads it: its value there is the one at call time)
+                    if any(isinstance(d, (ast.FunctionDef, ast.AsyncFunctionDef, ast.Lambda)) and d is not f and any(u is y for u in uses for y in ast.walk(d))
+                           for d in ast.walk(f)):
+                        continue
+                    last = max(pos(u) for u in uses)
+                    reads = {y.id for y in ast.walk(st.value) if isinstance(y, ast.Name)}
+                    loops = [lp for lp in ast.walk(f) if isinstance(lp, (ast.For, ast.While, ast.AsyncFor)) and any(st is y for y in ast.walk(lp))]
+                    unstable = False
+                    for r_ in reads:
+                        for sn in stores.get(r_, []):
+                            if pos(st) < pos(sn) <= last:
+                                unstable = True
+                    # attributes / items of what it reads must not be stored to in between either
+                    for y in ast.walk(f):
+                        if isinstance(y, (ast.Attribute, ast.Subscript)) and isinstance(y.ctx, (ast.Store, ast.Del)) and pos(st) < pos(y) <= last:
+                            base = y
+                            while isinstance(base, (ast.Attribute, ast.Subscript)):
+                                base = base.value
+                            if isinstance(base, ast.Name) and base.id in reads:
+                                unstable = True
+                    if unstable:
+                        continue
+                    for later in blk[i + 1:]:
+                        class _S(ast.NodeTransformer):
+                            def visit_Name(self, node):
+                                if node.id == nm and isinstance(node.ctx, ast.Load):
+                                    return ast.copy_location(copy.deepcopy(st.value), node)
+                                return node
+                        blk[blk.index(later)] = _S().visit(later)
+                    del blk[i]
+                    done += 1
+                    again = True
+                    break
+                if again:
+                    break
+            if again:
+                break
+    if done:
+        ast.fix_missing_locations(f)
+    return done
+
+
+def loops_to_comprehensions(f, ref_names):
+    """Undo "comprehension written out as a loop", for an accumulator the reference does not have:
+        acc = {} / [] / set()                      acc = {k: v for T in IT if C}
+        for T in IT:                        ->           [v for T in IT if C]
+            [t1 = e1; ...]   (temporaries the reference does not have, each read once further down)
+            [if C:]  acc[k] = v  /  acc.append(v)  /  acc.add(v)
+    provided the loop has no else / break / continue, the accumulator is touched nowhere else inside the loop, and the
+    loop variables are not read after the loop.  Returns the number of loops turned back."""
+    if os.environ.get('VERIF_NO_INLINE'):
+        return 0
+    import copy
+    done = 0
+    for holder in ast.walk(f):
+        for fld in ('body', 'orelse', 'finalbody'):
+            blk = getattr(holder, fld, None)
+            if not isinstance(blk, list):
+                continue
+            i = 0
+            while i + 1 < len(blk):
+                a, lp = blk[i], blk[i + 1]
+                i += 1
+                if not (isinstance(a, ast.Assign) and len(a.targets) == 1 and isinstance(a.targets[0], ast.Name) and isinstance(lp, ast.For)):
+                    continue
+                acc = a.targets[0].id
+                v0 = a.value
+                kind = None
+                if isinstance(v0, ast.Dict) and not v0.keys:
+                    kind = 'dict'
+                elif isinstance(v0, ast.List) and not v0.elts:
+                    kind = 'list'
+                elif isinstance(v0, ast.Call) and isinstance(v0.func, ast.Name) and v0.func.id in ('dict', 'list', 'set') and not v0.args and not v0.keywords:
+                    kind = v0.func.id
+                if kind is None or acc in ref_names or lp.orelse:
+                    continue
+                if any(isinstance(y, (ast.Break, ast.Continue, ast.Return, ast.Yield, ast.YieldFrom, ast.Await, ast.For, ast.While, ast.Try, ast.With,
+                                      ast.FunctionDef, ast.Lambda)) for st in lp.body for y in ast.walk(st)):
+                    continue
+                body = list(lp.body)
+                cond = None
+                temps = []
+                while body and isinstance(body[0], ast.Assign) and len(body[0].targets) == 1 and isinstance(body[0].targets[0], ast.Name) \
+                        and body[0].targets[0].id not in ref_names and body[0].targets[0].id != acc:
+                    temps.append(body.pop(0))
+                if len(body) == 1 and isinstance(body[0], ast.If) and not body[0].orelse and len(body[0].body) == 1 and not temps:
+                    cond = body[0].test
+                    body = list(body[0].body)
+                if len(body) != 1:
+                    continue
+                st = body[0]
+                elt = key = None
+                if kind == 'dict' and isinstance(st, ast.Assign) and len(st.targets) == 1 and isinstance(st.targets[0], ast.Subscript) \
+                        and isinstance(st.targets[0].value, ast.Name) and st.targets[0].value.id == acc:
+                    key, elt = st.targets[0].slice, st.value
+                elif kind in ('list', 'set') and isinstance(st, ast.Expr) and isinstance(st.value, ast.Call) and isinstance(st.value.func, ast.Attribute) \
+                        and isinstance(st.value.func.value, ast.Name) and st.value.func.value.id == acc \
+                        and st.value.func.attr == ('append' if kind == 'list' else 'add') and len(st.value.args) == 1 and not st.value.keywords:
+                    elt = st.value.args[0]
+                if elt is None:
+                    continue
+                parts = [x for x in (key, elt, cond) if x is not None]
+                # temporaries: each bound once, read once, substituted in order
+                ok = True
+                for t in reversed(temps):
+                    nm = t.targets[0].id
+                    later = temps[temps.index(t) + 1:]
+                    reads = sum(1 for p_ in parts + [x.value for x in later] for y in ast.walk(p_) if isinstance(y, ast.Name) and y.id == nm)
+                    stores_ = sum(1 for y in ast.walk(f) if isinstance(y, ast.Name) and y.id == nm and isinstance(y.ctx, ast.Store))
+                    all_reads = sum(1 for y in ast.walk(f) if isinstance(y, ast.Name) and y.id == nm and isinstance(y.ctx, ast.Load))
+                    if reads != 1 or stores_ != 1 or all_reads != 1:
+                        ok = False
+                        break
+                    sub = _Subst(nm, t.value)
+                    parts = [sub.visit(p_) for p_ in parts]
+                    for x in later:
+                        x.value = sub.visit(x.value)
+                if not ok:
+                    continue
+                if any(isinstance(y, ast.Name) and y.id == acc for p_ in parts + [lp.iter] for y in ast.walk(p_)):
+                    continue
+                tv = {y.id for y in ast.walk(lp.target) if isinstance(y, ast.Name)}
+                inside = {id(y) for y in ast.walk(lp)}
+                if any(isinstance(y, ast.Name) and y.id in tv and id(y) not in inside for y in ast.walk(f)):
+                    continue
+                it = iter(parts)
+                key2 = next(it) if key is not None else None
+                elt2 = next(it)
+                cond2 = next(it) if cond is not None else None
+                gen = ast.comprehension(target=lp.target, iter=lp.iter, ifs=[cond2] if cond2 is not None else [], is_async=0)
+                if kind == 'dict':
+                    comp = ast.DictComp(key=key2, value=elt2, generators=[gen])
+                elif kind == 'list':
+                    comp = ast.ListComp(elt=elt2, generators=[gen])
+                else:
+                    comp = ast.SetComp(elt=elt2, generators=[gen])
+                a.value = ast.copy_location(comp, lp)
+                blk.remove(lp)
+                done += 1
+    if done:
+        ast.fix_missing_locations(f)
+    return done
+
+
+def inline_new_temps(f, ref_names, only=None):
     """Undo "introduce explaining variable": a local that does not exist on the reference tree, is bound exactly once
     by a plain `name = <expression>` statement and read exactly once, in the statement that directly follows, is
     substituted back into that statement and its binding removed.  Returns the number of temporaries inlined."""
@@ -180,6 +459,8 @@ def inline_new_temps(f, ref_names):
                         continue
                     nm = st.targets[0].id
                     if nm in ref_names or nm in params or len(stores.get(nm, [])) != 1 or len(loads.get(nm, [])) != 1:
+                        continue
+                    if only is not None and nm not in only:
                         continue
                     nxt = blk[i + 1]
                     if isinstance(nxt, (ast.FunctionDef, ast.AsyncFunctionDef, ast.ClassDef)):
@@ -216,47 +497,110 @@ def inline_new_temps(f, ref_names):
     return n_inlined
 
 
-def fmt_equiv(node):
-    """the same text built the other way: `"a%sb%r" % (x, y)`  <->  f"a{x}b{y!r}" (only %s / %r fields, no widths, no
-    literal per cent signs or braces); None when the expression is not of that plain kind"""
+def int_names(f):
+    """names that hold an int by construction: the counter of `for i, x in enumerate(..)` / `for i in range(..)`
+    (statement or comprehension) - for these `%d` / `%i` and `{i}` print the same text"""
+    out = set()
+    for n in ast.walk(f):
+        if isinstance(n, (ast.For, ast.comprehension)) and isinstance(n.iter, ast.Call) and isinstance(n.iter.func, ast.Name):
+            if n.iter.func.id == 'enumerate' and isinstance(n.target, ast.Tuple) and n.target.elts and isinstance(n.target.elts[0], ast.Name):
+                out.add(n.target.elts[0].id)
+            elif n.iter.func.id == 'range' and isinstance(n.target, ast.Name):
+                out.add(n.target.id)
+    return out
+
+
+def fmt_alts(node, ints=None):
+    """the same text built the other way: `"a%sb%r" % (x, y)`  <->  f"a{x}b{y!r}"; fields %s / %r (and %d / %i for a
+    name of `ints`; ints=None: for any name), no widths, no literal per cent signs or braces; `{x!s}` counts as `{x}`.
+    Returns the list of alternative spellings (empty when the expression is not of that plain kind)."""
     import re as _re
+    import itertools
     if isinstance(node, ast.BinOp) and isinstance(node.op, ast.Mod) and isinstance(node.left, ast.Constant) and isinstance(node.left.value, str):
         fmt = node.left.value
         if '{' in fmt or '}' in fmt or '%%' in fmt:
-            return None
-        parts = _re.split(r'(%[sr])', fmt)
+            return []
+        parts = _re.split(r'(%[srdi])', fmt)
         if any('%' in p_ for p_ in parts[0::2]):
-            return None
+            return []
         args = list(node.right.elts) if isinstance(node.right, ast.Tuple) else [node.right]
         if len(args) != len(parts[1::2]) or isinstance(node.right, (ast.Dict, ast.Starred)) or not parts[1::2]:
-            return None
+            return []
         vals, k = [], 0
         for i, p_ in enumerate(parts):
             if i % 2 == 0:
                 if p_:
                     vals.append(ast.Constant(value=p_))
             else:
+                if p_ in ('%d', '%i') and not (isinstance(args[k], ast.Name) and (ints is None or args[k].id in ints)):
+                    return []
                 vals.append(ast.FormattedValue(value=args[k], conversion=114 if p_ == '%r' else -1, format_spec=None))
                 k += 1
-        return ast.JoinedStr(values=vals)
+        return [ast.JoinedStr(values=vals)]
     if isinstance(node, ast.JoinedStr):
-        fmt, args = '', []
+        pieces, args = [], []
         for v in node.values:
             if isinstance(v, ast.Constant) and isinstance(v.value, str):
                 if '%' in v.value:
-                    return None
-                fmt += v.value
-            elif isinstance(v, ast.FormattedValue) and v.format_spec is None and v.conversion in (-1, 114) \
+                    return []
+                pieces.append(v.value)
+            elif isinstance(v, ast.FormattedValue) and v.format_spec is None and v.conversion in (-1, 114, 115) \
                     and not isinstance(v.value, (ast.Tuple, ast.Dict)):
-                fmt += '%r' if v.conversion == 114 else '%s'
+                if v.conversion == 114:
+                    pieces.append(['%r'])
+                elif v.conversion == -1 and isinstance(v.value, ast.Name) and (ints is None or v.value.id in ints):
+                    pieces.append(['%s', '%d', '%i'])
+                else:
+                    pieces.append(['%s'])
                 args.append(v.value)
             else:
-                return None
+                return []
         if not args:
+            return []
+        right = ast.Tuple(elts=args, ctx=ast.Load()) if len(args) > 1 else (
+            args[0] if not isinstance(args[0], ast.Tuple) else ast.Tuple(elts=[args[0]], ctx=ast.Load()))
+        out = []
+        for choice in itertools.islice(itertools.product(*[p_ for p_ in pieces if isinstance(p_, list)]), 27):
+            it = iter(choice)
+            fmt = ''.join(p_ if isinstance(p_, str) else next(it) for p_ in pieces)
+            out.append(ast.BinOp(left=ast.Constant(value=fmt), op=ast.Mod(), right=right))
+        return out
+    return []
+
+
+def fmt_parts(node):
+    """(literal text with `{}` for each field, [field expression texts]) of a %-format or an f-string made of plain
+    fields (%s %r %d %i / {x} {x!r} {x!s}); None for anything else.  For rules that care about WHAT is put into the
+    text, not about the spelling."""
+    import re as _re
+    if isinstance(node, ast.BinOp) and isinstance(node.op, ast.Mod) and isinstance(node.left, ast.Constant) and isinstance(node.left.value, str):
+        fmt = node.left.value
+        if '{' in fmt or '}' in fmt or '%%' in fmt:
             return None
-        return ast.BinOp(left=ast.Constant(value=fmt), op=ast.Mod(), right=ast.Tuple(elts=args, ctx=ast.Load()) if len(args) > 1 else
-                         (args[0] if not isinstance(args[0], ast.Tuple) else ast.Tuple(elts=[args[0]], ctx=ast.Load())))
+        parts = _re.split(r'(%[srdi])', fmt)
+        if any('%' in p_ for p_ in parts[0::2]):
+            return None
+        args = list(node.right.elts) if isinstance(node.right, ast.Tuple) else [node.right]
+        if len(args) != len(parts[1::2]):
+            return None
+        return ''.join('{}' if i % 2 else p_ for i, p_ in enumerate(parts)), [ast.unparse(a) for a in args]
+    if isinstance(node, ast.JoinedStr):
+        txt, args = '', []
+        for v in node.values:
+            if isinstance(v, ast.Constant) and isinstance(v.value, str):
+                txt += v.value
+            elif isinstance(v, ast.FormattedValue) and v.format_spec is None:
+                txt += '{}'
+                args.append(ast.unparse(v.value))
+            else:
+                return None
+        return txt, args
     return None
+
+
+def fmt_equiv(node):
+    a = fmt_alts(node, ())
+    return a[0] if a else None
 
 
 _SWAP = {ast.Eq: ast.Eq, ast.NotEq: ast.NotEq, ast.Lt: ast.Gt, ast.Gt: ast.Lt, ast.LtE: ast.GtE, ast.GtE: ast.LtE}
@@ -283,28 +627,114 @@ def shape_of(f):
     tests of its if/else statements"""
     cmps = sorted(ast.unparse(x) for x in ast.walk(f) if isinstance(x, ast.Compare) and len(x.ops) == 1 and type(x.ops[0]) in _SWAP)
     ifs = sorted(_if_key(x.test, x.body) for x in ast.walk(f) if plain_if_else(x))
-    fmts = sorted(ast.unparse(x) for x in ast.walk(f) if fmt_equiv(x) is not None)
+    fmts = sorted(ast.unparse(x) for x in ast.walk(f) if fmt_alts(x))
     defs = sorted(x.name for x in ast.walk(f) if isinstance(x, ast.FunctionDef) and x is not f)
-    return {'cmp': cmps, 'if': ifs, 'fmt': fmts, 'defs': defs}
+    stores = {}
+    for x in ast.walk(f):
+        if isinstance(x, ast.Name) and isinstance(x.ctx, ast.Store):
+            stores[x.id] = stores.get(x.id, 0) + 1
+    return {'cmp': cmps, 'if': ifs, 'fmt': fmts, 'defs': defs, 'stores': stores}
+
+
+class _Blank(ast.NodeTransformer):
+    def __init__(self, names):
+        self.names = names
+
+    def visit_Name(self, node):
+        return ast.copy_location(ast.Name(id='_', ctx=node.ctx), node) if node.id in self.names else node
+
+
+def skeleton(f, mg):
+    """the statements of f (headers only for compound ones) with every local name blanked: what is left of a function
+    when its locals are renamed"""
+    import copy
+    names = {nm for nm, _ in binding_sites(f, mg)}
+    out = []
+    for st in ast.walk(f):
+        if not isinstance(st, ast.stmt) or st is f:
+            continue
+        if isinstance(st, (ast.If, ast.While)):
+            part = st.test
+        elif isinstance(st, (ast.For, ast.AsyncFor)):
+            part = ast.Tuple(elts=[st.target, st.iter], ctx=ast.Load())
+        elif isinstance(st, (ast.With, ast.AsyncWith)):
+            part = ast.Tuple(elts=[it.context_expr for it in st.items], ctx=ast.Load())
+        elif isinstance(st, (ast.Try, ast.FunctionDef, ast.AsyncFunctionDef, ast.ClassDef)):
+            continue
+        else:
+            part = st
+        out.append(type(st).__name__ + ' ' + ast.unparse(_Blank(names).visit(copy.deepcopy(part))))
+    return sorted(out)
+
+
+def _choose_temps(f, want, mg, ref_skel):
+    """the function has k locals more than the reference and several single-use temporaries with names the reference
+    does not know (a rename came together with "introduce variable"): which k of them are the new ones?  Those whose
+    substitution leaves the statements closest to the reference's (names blanked)."""
+    import copy, itertools
+    from collections import Counter
+    cur = binding_sites(f, mg)
+    k = len(cur) - len(want)
+    if k <= 0 or not ref_skel:
+        return None
+    ref_names = {nm for nm, _ in want}
+    probe = copy.deepcopy(f)
+    cands = []
+    while True:          # (which names could be substituted at all: one at a time on a copy)
+        names_before = {nm for nm, _ in binding_sites(probe, mg)}
+        if not inline_new_temps_one(probe, ref_names):
+            break
+        gone = names_before - {nm for nm, _ in binding_sites(probe, mg)}
+        cands.extend(sorted(gone))
+    if len(cands) <= k:
+        return None
+    refc = Counter(ref_skel)
+    best, best_score = None, -1
+    for sub in itertools.islice(itertools.combinations(cands, k), 300):
+        g = copy.deepcopy(f)
+        if inline_new_temps(g, ref_names, only=set(sub)) != k:
+            continue
+        if [kk for _, kk in binding_sites(g, mg)] != [kk for _, kk in want]:
+            continue
+        score = sum((Counter(skeleton(g, mg)) & refc).values())
+        if score > best_score:
+            best, best_score = set(sub), score
+    return best
+
+
+def inline_new_temps_one(f, ref_names):
+    """substitute one temporary (the first that qualifies); 1 if done"""
+    stores, loads = {}, {}
+    for n in ast.walk(f):
+        if isinstance(n, ast.Name):
+            (stores if isinstance(n.ctx, ast.Store) else loads).setdefault(n.id, []).append(n)
+    params = {a.arg for n in ast.walk(f) if isinstance(n, ast.arguments) for a in n.posonlyargs + n.args + n.kwonlyargs}
+    for nm in sorted(stores, key=lambda x: (stores[x][0].lineno, stores[x][0].col_offset)):
+        if nm in ref_names or nm in params or len(stores[nm]) != 1 or len(loads.get(nm, [])) != 1:
+            continue
+        if inline_new_temps(f, ref_names, only={nm}):
+            return 1
+    return 0
 
 
 class _FmtBack(ast.NodeTransformer):
-    def __init__(self, ref, cur):
-        self.ref, self.cur, self.n = ref, cur, 0
+    def __init__(self, ref, cur, ints=()):
+        self.ref, self.cur, self.n, self.ints = ref, cur, 0, ints
 
     def _maybe(self, node):
-        alt = fmt_equiv(node)
-        if alt is None:
+        alts = fmt_alts(node, self.ints)
+        if not alts:
             return node
         t = ast.unparse(node)
         if self.cur[t] <= self.ref[t]:
             return node
-        ta = ast.unparse(alt)
-        if self.cur[ta] < self.ref[ta]:
-            self.cur[t] -= 1
-            self.cur[ta] += 1
-            self.n += 1
-            return ast.copy_location(alt, node)
+        for alt in alts:
+            ta = ast.unparse(alt)
+            if self.cur[ta] < self.ref[ta]:
+                self.cur[t] -= 1
+                self.cur[ta] += 1
+                self.n += 1
+                return ast.copy_location(alt, node)
         return node
 
     def visit_BinOp(self, node):
@@ -323,8 +753,8 @@ def format_back(f, want):
         return 0
     from collections import Counter
     ref = Counter(want.get('fmt', []))
-    cur = Counter(ast.unparse(x) for x in ast.walk(f) if fmt_equiv(x) is not None)
-    tr = _FmtBack(ref, cur)
+    cur = Counter(ast.unparse(x) for x in ast.walk(f) if fmt_alts(x))
+    tr = _FmtBack(ref, cur, int_names(f))
     tr.generic_visit(f)
     if tr.n:
         ast.fix_missing_locations(f)
@@ -528,12 +958,36 @@ def canonicalise(module_name, tree):
             k0 += kk
             if not kk:
                 break
-        renamed = _rename_back(f, want, mg)
+        ref_all0 = {nm for nm, _ in want} | set((shapes().get(module_name, {}).get(qual) or {}).get('stores', {}))
+        if len(binding_sites(f, mg)) > len(want):
+            kl = loops_to_comprehensions(f, ref_all0)
+            if kl:
+                inline_new_temps(f, ref_all0)
+                notes.append('%s.%s: %d accumulating loop(s) turned back into the reference\'s comprehension' % (module_name, qual, kl))
+        renamed = _rename_back(f, want, mg, (shapes().get(module_name, {}).get(qual) or {}).get('stores'))
         if renamed:
             notes.append('%s.%s: %d local(s) mapped back to reference names' % (module_name, qual, renamed))
-        k = inline_new_temps(f, {nm for nm, _ in want})
+        # (every name the reference function stores to, module-level names it re-binds included)
+        ref_all = {nm for nm, _ in want} | set((shapes().get(module_name, {}).get(qual) or {}).get('stores', {}))
+        if not renamed and len(binding_sites(f, mg)) > len(want):
+            # (a rename together with new temporaries: find out which temporaries are the new ones, then rename)
+            sub = _choose_temps(f, want, mg, (shapes().get(module_name, {}).get(qual) or {}).get('skel'))
+            if sub:
+                k = inline_new_temps(f, ref_all, only=sub)
+                notes.append('%s.%s: %d new single-use temporar%s inlined' % (module_name, qual, k, 'y' if k == 1 else 'ies'))
+                renamed = _rename_back(f, want, mg, (shapes().get(module_name, {}).get(qual) or {}).get('stores'))
+                if renamed:
+                    notes.append('%s.%s: %d local(s) mapped back to reference names' % (module_name, qual, renamed))
+        k2 = inline_shared_temps(f, ref_all) if len(binding_sites(f, mg)) > len(want) else 0
+        if k2:
+            notes.append('%s.%s: %d new shared temporar%s (pure expression read several times) substituted back' % (module_name, qual, k2, 'y' if k2 == 1 else 'ies'))
+        k = inline_new_temps(f, ref_all)
         if k:
             notes.append('%s.%s: %d new single-use temporar%s inlined' % (module_name, qual, k, 'y' if k == 1 else 'ies'))
+            if not renamed:     # (a rename together with a new temporary: the names line up only now)
+                renamed = _rename_back(f, want, mg, (shapes().get(module_name, {}).get(qual) or {}).get('stores'))
+                if renamed:
+                    notes.append('%s.%s: %d local(s) mapped back to reference names' % (module_name, qual, renamed))
         k = k0 + orient_back(f, shapes().get(module_name, {}).get(qual))
         if k:
             _reposition(f)
@@ -541,27 +995,115 @@ def canonicalise(module_name, tree):
     return notes
 
 
-def _rename_back(f, want, mg):
+def _merge_ok(f, x, y):
+    """a local `x` that the reference does not have may stand for a second life of the reference's `y` (one name used
+    for two things there, two names here) only if the two never overlap: every read of `y` comes before the first
+    binding of `x` in the source, and no loop holds both a read of `y` and a binding of `x`"""
+    pos = lambda n: (n.lineno, n.col_offset)
+    xs = [n for n in ast.walk(f) if isinstance(n, ast.Name) and n.id == x and isinstance(n.ctx, ast.Store)]
+    yl = [n for n in ast.walk(f) if isinstance(n, ast.Name) and n.id == y and isinstance(n.ctx, ast.Load)]
+    if not xs:
+        return False
+    first = min(pos(n) for n in xs)
+    if any(pos(n) >= first for n in yl):
+        return False
+    for loop in ast.walk(f):
+        if isinstance(loop, (ast.For, ast.While, ast.AsyncFor)):
+            inside = {id(n) for n in ast.walk(loop)}
+            if any(id(n) in inside for n in xs) and any(id(n) in inside for n in yl):
+                return False
+    return True
+
+
+def _split_back(f, want, mg, ref_stores=None):
+    """Undo "one variable per purpose": the reference binds one name twice, the function now has a second name for
+    the second life.  Tried only when the function has exactly one local more than the reference."""
+    cur = binding_sites(f, mg)
+    if len(cur) != len(want) + 1:
+        return 0
+    want_names = {nm for nm, _ in want}
+    params = {a.arg for n in ast.walk(f) if isinstance(n, ast.arguments) for a in n.posonlyargs + n.args + n.kwonlyargs}
+    # (first the names the reference does not have; then - the second life kept the old name, the first got a new one -
+    # the others)
+    for i, (x, _) in sorted(enumerate(cur), key=lambda t: (t[1][0] in want_names, t[0])):
+        rest = cur[:i] + cur[i + 1:]
+        if [k for _, k in rest] != [k for _, k in want]:
+            continue
+        back = {a: b for (a, _), (b, _) in zip(rest, want)}
+        if len(set(back.values())) != len(back):
+            continue
+        now = shape_of(f)['stores']
+        for y_now, y_ref in list(back.items()) + [(p_, p_) for p_ in sorted(params)]:
+            # (the reference binds its one name as often as the two names are bound together here)
+            if ref_stores is None or now.get(x, 0) + now.get(y_now, 0) != ref_stores.get(y_ref, 0):
+                continue
+            if _merge_ok(f, x, y_now):
+                _Ren({x: y_now}).visit(f)
+                return 1
+    return 0
+
+
+def _rename_back(f, want, mg, ref_stores=None):
     if not want:
         return 0
     cur = binding_sites(f, mg)
     if cur == want:
         return 0
+    if len(cur) == len(want) + 1 and _split_back(f, want, mg, ref_stores):
+        cur = binding_sites(f, mg)
+        if cur == want:
+            return 1
     if len(cur) != len(want) or [k for _, k in cur] != [k for _, k in want]:
         return 0
-    mapping = {a: b for (a, _), (b, _) in zip(cur, want) if a != b}
-    if not mapping:
+    clauses = comp_nodes(f)
+    per_clause = []
+    for g in clauses:
+        per_clause += [(id(g), x.id) for x in _ordered(g.target) if isinstance(x, ast.Name)]
+    if len(per_clause) != sum(1 for _, k in cur if k == 'comp'):
+        return 0
+    mapping, cmaps, ci = {}, {}, 0
+    for (a, k), (b, _) in zip(cur, want):
+        if k == 'comp':
+            gid, nm = per_clause[ci]
+            ci += 1
+            if nm != a:
+                return 0
+            if a != b:
+                if cmaps.setdefault(gid, {}).get(a, b) != b:
+                    return 0
+                cmaps[gid][a] = b
+        elif a != b:
+            mapping[a] = b
+    if not mapping and not cmaps:
         return 0
     if len(set(mapping.values())) != len(mapping):
         return 0
     # a rename introduces names the reference does not have and retires names the function no longer has; when the
     # "mapping" merely permutes names both trees use (a local now bound earlier than before), it is not a rename
-    want_names, cur_names = {nm for nm, _ in want}, {nm for nm, _ in cur}
+    want_names, cur_names = {nm for nm, k in want if k != 'comp'}, {nm for nm, k in cur if k != 'comp'}
     if any(a_ in want_names or b_ in cur_names for a_, b_ in mapping.items()):
         return 0
-    used = {n.id for n in ast.walk(f) if isinstance(n, ast.Name)} | {a.arg for n in ast.walk(f) if isinstance(n, ast.arguments)
-                                                                       for a in n.posonlyargs + n.args + n.kwonlyargs}
+    used = scope_names(f)
     if any(b in used and b not in mapping for b in mapping.values()):
         return 0
-    _Ren(mapping).visit(f)
-    return len(mapping)
+    # inside one comprehension the new names of its variables must be distinct and must not capture a name it reads
+    for g in clauses:
+        cm = cmaps.get(id(g))
+        if not cm:
+            continue
+        if len(set(cm.values())) != len(cm):
+            return 0
+    for node in ast.walk(f):
+        if isinstance(node, _COMPS):
+            cm = {}
+            for g in node.generators:
+                cm.update(cmaps.get(id(g), {}))
+            if not cm:
+                continue
+            bound = {t.id for g in node.generators for t in ast.walk(g.target) if isinstance(t, ast.Name)}
+            free = {y.id for y in ast.walk(node) if isinstance(y, ast.Name)} - bound
+            free = {mapping.get(x, x) for x in free}
+            if any(b in free or (b in bound and b not in cm) for b in cm.values()):
+                return 0
+    rename_scoped(f, mapping, cmaps)
+    return len(mapping) + sum(len(v) for v in cmaps.values())
